@@ -77,12 +77,14 @@ type world struct {
 	rawBad   []string
 
 	// probes made under one world description, flushed as one Coq case
-	grpDesc   string
-	grpProbes []string
-	grpLabels []string
-	pending   *pendingProbe
-	probeNo   uint32
-	runaway   bool // far more packets than any budget allows: forwarding does not stop
+	grpDesc      string
+	grpProbes    []string
+	grpLabels    []string
+	pending      *pendingProbe
+	probeNo      uint32
+	silentTraces int
+	longWaits    int  // expected events that did not come within the generous wait
+	runaway      bool // far more packets than any budget allows: forwarding does not stop
 }
 
 // addProbe holds a probe back until the next probe starts: if the mesh showed activity in
@@ -229,11 +231,11 @@ func newWorld(name string, nodes []string, links [][2]int, maxHops byte, phantom
 			}
 		}
 	}
-	if !w.mesh.WaitRoutes(want, 15*time.Second) {
+	if !w.mesh.WaitRoutes(want, 60*time.Second) {
 		return nil, fmt.Errorf("mesh %s did not converge", name)
 	}
 	// every node must also have heard of every other node (name hashes) before tables are frozen
-	WaitFor(5*time.Second, func() bool {
+	WaitFor(30*time.Second, func() bool {
 		for _, a := range nodes {
 			for _, b := range w.component(a) {
 				if got, err := w.mesh.Nodes[a].GetNameFromHash(hwh(b)); err != nil || got != b {
@@ -439,6 +441,23 @@ func (w *world) awaitEnd(src, fsvc string, syncErr bool) {
 		if now := atomic.LoadInt64(&w.activity); now != last {
 			last, since = now, time.Now()
 		}
+	}
+}
+
+// waitUntil polls cond (evaluated under the lock) until it holds or the time is up.
+func (w *world) waitUntil(d time.Duration, cond func() bool) bool {
+	deadline := time.Now().Add(d)
+	for {
+		w.mu.Lock()
+		ok := cond()
+		w.mu.Unlock()
+		if ok || time.Now().After(deadline) || w.isRunaway() {
+			if ok {
+				w.quiet(time.Millisecond)
+			}
+			return ok
+		}
+		time.Sleep(200 * time.Microsecond)
 	}
 }
 
